@@ -102,6 +102,32 @@ Theorem C13_projection_recovers_coefficients :
 Proof. exact @projection_is_mass_times_coefficients. Qed.
 Print Assumptions C13_projection_recovers_coefficients.
 
+(* the vectorised path (get_function_quadrature_information + callable + _project_function_vectorized, function_data
+   addressed by the POSITION of the element in the support) computes the same projections as the scalar path, for every
+   support (prefix or not), hence also M c for in-space callables *)
+Theorem C13_vectorized_projection_is_scalar_projection :
+  forall (A : Type) (R : CRing A) nel dim rule intel (S0 : space A) (ev : basisfn)
+         (fdata : nat -> nat -> nat -> A) (f : nat -> pt2 A -> nat -> A) r,
+    (forall pos e k q d, In (pos, e) (enumerate (support_elements nel S0)) -> In (k, q) (enumerate rule) ->
+                         req (fdata pos k d) (f e (fst q) d)) ->
+    req (project_vectorized nel dim rule intel S0 ev fdata r) (project nel dim rule intel S0 ev f r).
+Proof. exact @project_vectorized_is_project. Qed.
+Print Assumptions C13_vectorized_projection_is_scalar_projection.
+
+Theorem C13_vectorized_projection_recovers_coefficients :
+  forall (A : Type) (R : CRing A) dim rule intel (bt br evt : basisfn) nel (St Sr : space A) (J : list nat)
+         (coef : nat -> A) (fdata : nat -> nat -> nat -> A) (f : nat -> pt2 A -> nat -> A) r,
+    NoDup J -> dofs_in J Sr (sparse_elements nel St Sr) ->
+    (forall e i p d, req (evt e i p d) (rmul (sp_mult St e i) (bt e i p d))) ->
+    (forall e q d, In e (support_elements nel St) -> In q rule -> (d < dim)%nat ->
+                   req (f e (fst q) d) (indic (sp_support Sr e) (uval coef Sr br e (fst q) d))) ->
+    (forall pos e k q d, In (pos, e) (enumerate (support_elements nel St)) -> In (k, q) (enumerate rule) ->
+                         req (fdata pos k d) (f e (fst q) d)) ->
+    req (project_vectorized nel dim rule intel St evt fdata r)
+        (mvec J (sparse_core nel (Lsp_identity dim rule intel bt br) St Sr) coef r).
+Proof. exact @projection_vectorized_is_mass_times_coefficients. Qed.
+Print Assumptions C13_vectorized_projection_recovers_coefficients.
+
 (* _integrate (after the fix: commit edfc0c1 the multipliers enter once): quadrature of the represented function for
    every space, signed multipliers included *)
 Theorem C13_integrate :
